@@ -1,6 +1,6 @@
 /* h_cli: batch runner for the real snoopyctl binary.
  * usage: h_cli <snoopyctl> <preload-file-path> <libsnoopy.so path>
- * stdin lines:  <hex initial content | -(absent)> <sequence of e(nable) d(isable) s(tatus)>
+ * stdin lines:  <hex initial content | -(absent)> <sequence of e(nable) d(isable) s(tatus); E D S = with descriptors 0-2 closed; x / c = remove / recreate the library file>
  * stdout line:  one token per step:  <exit code>:<hex content | ->:<status says OK 0/1>   */
 #include <stdio.h>
 #include <stdlib.h>
@@ -20,9 +20,15 @@ int main(int argc, char **argv) {
         unlink(pf);
         if (strcmp(line, "-")) { size_t n = strlen(line) / 2; for (size_t i = 0; i < n; i++) buf[i] = (unsigned char)(hexv(line[2 * i]) * 16 + hexv(line[2 * i + 1])); int fd = open(pf, O_WRONLY | O_CREAT | O_TRUNC, 0644); if (write(fd, buf, n) != (ssize_t)n) return 3; close(fd); }
         for (char *c = seq; *c; c++) {
-            const char *act = *c == 'e' ? "enable" : *c == 'd' ? "disable" : "status";
+            /* x / c: the library file itself disappears / comes back (uninstall order); no command is run */
+            if (*c == 'x' || *c == 'c') { if (*c == 'x') unlink(lib); else { int lf = open(lib, O_WRONLY | O_CREAT, 0644); if (lf >= 0) close(lf); }
+                printf("0:"); int fd0 = open(pf, O_RDONLY); if (fd0 < 0) printf("-"); else { ssize_t n = read(fd0, buf, sizeof buf); close(fd0); if (n == 0) printf("."); for (ssize_t i = 0; i < n; i++) printf("%02x", buf[i]); } printf(":0 "); continue; }
+            /* upper case: the same command started with descriptors 0, 1 and 2 closed (as from a daemon or `cmd <&- >&- 2>&-`) */
+            int closed = (*c == 'E' || *c == 'D' || *c == 'S'); int lc = closed ? *c + 32 : *c;
+            const char *act = lc == 'e' ? "enable" : lc == 'd' ? "disable" : "status";
             int p[2]; if (pipe(p)) return 3;
             pid_t pid = fork();
+            if (pid == 0 && closed) { close(p[0]); close(p[1]); close(0); close(1); close(2); execl(cli, cli, act, (char *)NULL); _exit(126); }
             if (pid == 0) { dup2(p[1], 1); int n = open("/dev/null", O_WRONLY); dup2(n, 2); close(p[0]); close(p[1]); execl(cli, cli, act, (char *)NULL); _exit(126); }
             close(p[1]); static char ob[1 << 16]; size_t on = 0; ssize_t r; while ((r = read(p[0], ob + on, sizeof ob - 1 - on)) > 0) on += r; ob[on] = 0; close(p[0]);
             int st = 0; waitpid(pid, &st, 0); int rc = WIFEXITED(st) ? WEXITSTATUS(st) : 1000 + WTERMSIG(st);
